@@ -5,6 +5,7 @@ import CoercionModel.Model.Attempts
 import CoercionModel.Model.Builder
 import CoercionModel.Model.Validate
 import CoercionModel.Model.Engine
+import CoercionModel.Model.Startup
 open Lean
 namespace Coercion
 
@@ -88,5 +89,8 @@ instance : ToJson Engine.Ev where
 
 instance : ToJson Engine.Obj where
   toJson o := Json.mkObj [("idx", o.idx), ("status", toJson o.status), ("calls", o.calls)]
+
+deriving instance FromJson for Startup.Stored
+deriving instance ToJson for Startup.Fate
 
 end Coercion
